@@ -221,6 +221,15 @@ func workerMain(args []string) {
 		fmt.Fprintln(os.Stderr, "unknown property", w.Spec.Prop)
 		os.Exit(3)
 	}
+	go func() { // heartbeat for the driver: what the monitors have seen so far
+		for {
+			w.mu.Lock()
+			ev := w.Res.Evals
+			w.mu.Unlock()
+			_ = os.WriteFile(filepath.Join(w.Spec.Dir, w.Spec.Name+".progress"), []byte(fmt.Sprintf("%d %d", libraryProgress(), ev)), 0644)
+			time.Sleep(5 * time.Second)
+		}
+	}()
 	p.Worker(w)
 	w.flush()
 	os.Exit(0)
@@ -446,9 +455,35 @@ func (d *D) runOne(s Spec) *WorkerOut {
 		timeout = 10 * time.Minute
 	}
 	var err error
-	select {
-	case err = <-done:
-	case <-time.After(timeout):
+	progressPath := filepath.Join(s.Dir, s.Name+".progress")
+	readProgress := func() string { b, _ := os.ReadFile(progressPath); return string(b) }
+	finished := false
+	// The time limit is not a verdict on its own: a worker whose monitors still see the library making progress (heartbeat
+	// file written by the worker every 5 s) is given more time, up to four times the limit; only a worker that makes no
+	// progress any more is dumped (SIGQUIT) and classified.
+waitLoop:
+	for ext := 0; ; ext++ {
+		select {
+		case err = <-done:
+			finished = true
+			break waitLoop
+		case <-time.After(timeout):
+		}
+		if ext >= 3 {
+			break
+		}
+		p1 := readProgress()
+		select {
+		case err = <-done:
+			finished = true
+			break waitLoop
+		case <-time.After(30 * time.Second):
+		}
+		if p2 := readProgress(); p2 == p1 || p2 == "" {
+			break
+		}
+	}
+	if !finished {
 		o.TimedOut = true
 		_ = syscall.Kill(-cmd.Process.Pid, syscall.SIGQUIT)
 		select {
